@@ -427,7 +427,7 @@ class Check:
             "distinct_nontrivial": len(self.distinct),
             "rule": self.rule,
             "samples": self.samples[:12] or [{"note": "no correspondence cases in this run"}],
-            "stats": self.stats,
+            "stats": dict(self.stats, timeouts_retried=dict(run.RETRY_STATS)),
             "known_findings_hit": sorted(self.known_hits),
             "broken_ties": self.broken_ties,
             "exhaustive": bool(self.stats.get("exhaustive", False)),
